@@ -345,6 +345,11 @@ class Check:
         self.known = [k for k in load_known()["findings"] if k["property"] == prop or prop in k.get("also", [])]
         self.replay_n = 0
 
+    def clean_replays(self):
+        import glob
+        for old in glob.glob(os.path.join(VERIF, "replays", self.prop, f"{self.tier}_{self.seed}_*.json")):
+            os.remove(old)
+
     # --- logging
     def log(self, *a):
         print(f"[{self.prop} +{time.time() - self.t0:6.1f}s]", *a, flush=True)
